@@ -1,6 +1,7 @@
 /-
   C03 — installing and removing fakes touches nothing but the designated entries.
 -/
+import InjModel.Generated.Layout
 import InjModel.Lemmas.Machine
 namespace Inj.Props
 open Inj Inj.Machine
@@ -51,9 +52,14 @@ theorem C03_frame_lifetime (mode : Mode) (rs : List Req) (s0 sf : MState) (ord :
     simp only [dropInjector, logEv, h1]
     rw [dropGuards_frame gs.reverse sf x (fun g hg => hfr g (by simpa using hg)), hi]
 
+/-- the model's state is complete for the back ends: `injector_core` declares no process-wide or
+    thread-local mutable state (regenerated from the source on every run) -/
+theorem C03_state_modelled : Generated.Layout.coreStatics = [] := by decide
+
 end Inj.Props
 
 #print axioms Inj.Props.C03_frame_install
 #print axioms Inj.Props.C03_frame_drop
 #print axioms Inj.Props.C03_slot
 #print axioms Inj.Props.C03_frame_lifetime
+#print axioms Inj.Props.C03_state_modelled
